@@ -49,24 +49,7 @@ def mixed_from_choice(n, choice):
 
 class Lane(LaneBase):
     PROP = 'C20'
-    THEOREMS = [
-        'CG.C20.mb_eq',
-        'CG.C20.mb_shields',
-        'CG.C20.mb_minimal',
-        'CG.C20.mb_shields_dag',
-        'CG.C20.mb_minimal_dag',
-        'CG.C20.self_not_mem_mb',
-        'CG.C20.identifyMarkovBoundary_ok_iff',
-        'CG.C20.identifyMarkovBoundary_err',
-        'CG.C20.mb_correct',
-        'CG.C20.skeleton_mb_iff',
-        'CG.C20.skeletonBoundary_ok_iff',
-        'CG.C20.mem_potentialParents',
-        'CG.C20.nodup_potentialParents',
-        'CG.C20.colliders_iff_count',
-        'CG.C20.colliders_iff',
-        'CG.C20.colliders_unshielded_iff',
-    ]
+    THEOREMS = 'auto'
     AUDIT = 'CG/Audit/C20.lean'
     RULE = ('dag case: some node has a non-empty boundary and a node outside boundary + itself (the shielding claim is '
             'not vacuous); mixed case: identify_colliders returned at least one node; distinct by labelled typed edge set')
